@@ -35,6 +35,7 @@ THEOREMS = [
     "RedunModel.C10.wf_variants",
     "RedunModel.C10.fault_is_reported",
     "RedunModel.C10.exc_paths",
+    "RedunModel.C10.submit_tracks_job",
     "RedunModel.C10.locked_no_lost_job",
 ]
 VARIANTS = ["docker", "batch", "k8s", "gcp", "glue"]
@@ -50,6 +51,9 @@ TRUSTED = [
     "fault injection: the environment step F arms one transient cloud error (botocore ClientError TooManyRequestsException); it is "
     "raised by the next fake parse_job_result call, i.e. inside status processing, after the job has been popped from the "
     "pending map (before the pop for Glue)",
+    "AWS Batch reunite path: the fake Batch API lists in-flight jobs of an earlier execution at the first submission only; "
+    "their state (RUNNING/SUCCEEDED/FAILED/gone) is changed by environment steps, only before the submission of the matching "
+    "job begins; a reunited job completes (or fails, if the old job FAILED) at the next poll",
     "modelled, not verified: Thread.start/is_alive/join, OrderedDict/deque order, `and`/`or` short-circuit in one line",
 ]
 ASSUMPTIONS = [
@@ -78,7 +82,9 @@ LEVEL_TEXT = ("Proved in Lean: refuted_docker / refuted_aws_batch / refuted_k8s 
               "(not covered: Glue, which has the second loss mode). fault_is_reported (+ exc_paths): for all five executors "
               "and every interleaving, a job that a status-processing step removed from the pending map before a cloud "
               "call failed (injected throttling error) is always covered by a scheduler-level error "
-              "(reject_job(None, error)) raised or about to be raised — never silently dropped. locked_no_lost_job: the hand-off "
+              "(reject_job(None, error)) raised or about to be raised — never silently dropped. submit_tracks_job: the recording "
+              "step of _submit (with or without the reunite path, modelled for AWS Batch) always puts the job into the pending "
+              "map or the queue. locked_no_lost_job: the hand-off "
               "done under one lock (monitor: loop test and clearing the flag; submitter: flag test, set, thread start) "
               "loses no job in any interleaving — the specification of the repair. Tie: line-by-line lockstep of the "
               "five real executor classes with the model under controlled schedules.")
@@ -114,6 +120,7 @@ LABELS = {
     },
     "batch": {
         1: ("_submit", "self.arrayer.add_job(job)"), 2: ("_submit", "self._start()"),
+        36: ("_submit", "self.pending_batch_jobs[batch_job_id] = job"),
         4: ("_start", "if not self.is_running:"), 3: ("_start", "self._aws_user = aws_utils.get_aws_user()"),
         5: ("_start", "self.is_running = True"), 6: ("_start", NEWT), 7: ("_start", "self._thread.start()"),
         10: ("_monitor", "assert self._scheduler"), 8: ("_monitor", "chunk_size = 100"),
@@ -193,6 +200,7 @@ EXIT_LABELS = {
 ARR_WAIT = "<arrayer-wait>"
 THREAD_EXIT = "<thread-exit>"
 FAULT = "<cloud-error-armed>"
+ENV = "<cloud-state>"
 DRAIN_LIMIT = 3000
 STALL_STEPS = 400      # a monitor loop iteration is < 40 lines
 
@@ -257,9 +265,15 @@ ARR_CFG = {"job_monitor_interval": "0", "job_stale_time": "-1", "min_array_size"
 class Rig:
     """One real executor under the deterministic thread controller."""
 
-    def __init__(self, variant, njobs, arrmax=0):
+    def __init__(self, variant, njobs, arrmax=0, listed=()):
         self.variant = variant
         self.njobs = njobs
+        # AWS Batch reunite path: jobs for which the first listing of the Batch queue (gather_inflight_jobs) shows an
+        # in-flight Batch job of an earlier execution, and that Batch job's state: R(unning) S(ucceeded) F(ailed) G(one)
+        self.listed = [j for j in listed if j < njobs] if variant == "batch" else []
+        self.old_status = {j: "R" for j in self.listed}
+        self.pre_shown = []
+        self.cur_index = 0
         # arrayer max_array_size: 0 = never reached (min 9999 / max 10000: every group goes out as single jobs);
         # 1 = min 1 / max 1: a group of n > 1 jobs is handed over one job per poll, the remainder is re-queued
         # (the overflow path of submit_pending_jobs) — still single-job submissions, so no array-job fakes are needed
@@ -325,15 +339,28 @@ class Rig:
         from redun.config import Config
         cfg = Config({"x": {"image": "img", "queue": "q", "s3_scratch": "s3://b/r/", **self.arr_cfg}})
         self.ex = m.AWSBatchExecutor("x", scheduler=self.sched, config=cfg["x"])
-        self.ex.gather_inflight_jobs = lambda: None
+        calls = []
+
+        def get_jobs(statuses=None):        # the Batch queue listing: only the first one (resumed workflow) shows old jobs
+            calls.append(1)
+            return iter([{"jobName": "redun-job-e%d" % j, "jobId": "old%d" % j} for j in self.listed] if len(calls) == 1 else [])
+
+        self.ex.get_jobs = get_jobs
+        old = lambda i: self.old_status.get(int(i[3:])) if i.startswith("old") else None  # noqa: E731
+        self._patch(m, "aws_describe_jobs", lambda ids, chunk_size=100, aws_region=None: iter(
+            [{"jobId": i, "status": {"R": "RUNNING", "S": m.SUCCEEDED, "F": m.FAILED}[old(i)]} for i in ids if old(i) in ("R", "S", "F")]))
+        self._patch(m, "parse_job_error", lambda scratch, job, batch_job_metadata=None: (RuntimeError("batch job failed"), NS(logs=None)))
+        self._patch(m, "parse_job_logs", lambda *a, **k: [])
         self._patch(m.aws_utils, "get_aws_user", lambda *a, **k: "u")
         self._patch(m, "submit_task", lambda image, queue, scratch, job, task, **kw: {"jobId": "b" + job.id, "jobName": "n"})
         self._patch(m, "iter_batch_job_status",
-                    lambda ids, pending_truncate=10, aws_region=None: [{"jobId": k, "status": m.SUCCEEDED} for k in ids])
+                    lambda ids, pending_truncate=10, aws_region=None: [
+                        {"jobId": k, "status": m.FAILED if old(k) == "F" else m.SUCCEEDED} for k in ids])
         self._patch(m, "get_job_log_stream", lambda job, aws_region=None: None)
         self._patch(m, "parse_job_result", self._result)
         X = m.AWSBatchExecutor
-        self.targets = [(X._submit, lines_matching(X._submit, [r"self\.arrayer\.add_job\(job\)", r"^\s+self\._start\(\)"])),
+        self.targets = [(X._submit, lines_matching(X._submit, [r"self\.arrayer\.add_job\(job\)", r"^\s+self\._start\(\)",
+                                                              r"self\.pending_batch_jobs\[batch_job_id\] = job"])),
                         X._start, X._monitor, X.stop]
         self.flag = lambda: self.ex.is_running
         self.pend = lambda: [j.n for j in self.ex.pending_batch_jobs.values()]
@@ -425,6 +452,7 @@ class Rig:
 
         def submitter():
             for j in jobs:
+                self.cur_index = j.n
                 ex.submit(j)
 
         self.ctl.spawn("S", submitter)
@@ -459,6 +487,10 @@ class Rig:
         return ev
 
     def model_ev(self, ev):
+        if ev[0] == "L" and ev[1:].isdigit():
+            return "(L i%s)" % ev[1:]
+        if ev[0] == "O" and ev[1:-1].isdigit():
+            return "(O i%s %s)" % (ev[1:-1], "T" if ev[-1] == "G" else "F")
         return ev if ev in ("S", "A", "F") else "(%s i%s)" % (ev[0], ev[1:])
 
     def next_label(self, name):
@@ -499,7 +531,22 @@ class Rig:
         tf = lambda b: "T" if b else "F"  # noqa: E731
         return (f"(flag {tf(self.flag())}) (pend {self._ids(self.pend())}) (queue {self._ids(self.queue())}) "
                 f"(arr {tf(self.arr_alive())}) (rep {self._ids(self.sched.reported)}) (crash i{len(self.sched.crashes)}) "
-                f"(num i{self.num_pending()}) (armed {tf(self.fault_armed)})")
+                f"(num i{self.num_pending()}) (armed {tf(self.fault_armed)}) (pre {self._ids(self.pre())})")
+
+    def pre(self):
+        """jobs with a listed old cloud job that have not been submitted yet (preexisting_batch_jobs); while the schedule's
+        leading L events are being replayed to the model only the part announced so far is shown"""
+        if self.variant != "batch":
+            return []
+        if len(self.pre_shown) < len(self.listed):
+            return list(self.pre_shown)
+        real = [int(h[1:]) for h in self.ex.preexisting_batch_jobs]
+        # _submit pops the entry in the lines before its recording line, i.e. already at the end of the previous scheduled
+        # step; the model pops it in the recording step: count it as present until that step has run
+        ins = (LABELS["batch"][1], LABELS["batch"][36])
+        if self.cur_index in self.listed and self.cur_index not in real and self.next_label("S") in ins:
+            real = sorted(real + [self.cur_index], key=self.listed.index)
+        return real
 
     def num_pending(self):
         """the counter the monitor loops test next to the pending map (arrayer.num_pending; the queue length elsewhere)"""
@@ -510,6 +557,21 @@ class Rig:
         return any(self.next_label(n) in ex_l for n in self.ctl.names() if n.startswith("M"))
 
     def do(self, ev):
+        if ev[0] in "LO" and ev != "O" and ev[1:2].isdigit():
+            j = int(re.match(r"[LO](\d+)", ev).group(1))
+            if ev[0] == "L":
+                if j not in self.listed or j in self.pre_shown or self.sched.reported or self.events and not self.events[-1].startswith("L"):
+                    return False
+                self.pre_shown.append(j)
+            else:
+                # the state of the old cloud job changes; only before the submission of job j has begun (the describe call
+                # of _submit happens before its first scheduled line, i.e. at the end of the previous submission)
+                if j not in self.listed or j <= self.cur_index:
+                    return False
+                self.old_status[j] = ev[-1]
+            self.events.append(ev)
+            self.trace.append((ev, ("", ENV), self.state(), self.next_label("S"), self.thread_labels("M"), self.thread_labels("U")))
+            return True
         if ev == "F":
             if self.fault_armed:
                 return False
@@ -522,7 +584,7 @@ class Rig:
             return False
         name = self.thread_of(ev)
         executed = self.next_label(name)
-        if ev == "S" and executed == LABELS[self.variant][1] and self.exiting_monitor():
+        if ev == "S" and executed in (LABELS[self.variant][1], LABELS[self.variant].get(36)) and self.exiting_monitor():
             self.hit = True
         self.ctl.step(name)
         self.events.append(ev)
@@ -560,7 +622,7 @@ class Rig:
 
 
 # ------------------------------------------------------------------ model comparison
-_STEP_RX = re.compile(r"^\((\S+) (\(flag .*\(crash i\d+\) \(num i-?\d+\) \(armed [TF]\)) \(hit ([TF])\) \(S (\S+)\) \(mons ([^)]*)\) \(subs ([^)]*)\) \(lost (\([^)]*\))\)\)$")
+_STEP_RX = re.compile(r"^\((\S+) (\(flag .*\(crash i\d+\) \(num i-?\d+\) \(armed [TF]\) \(pre \([^)]*\)\)) \(hit ([TF])\) \(S (\S+)\) \(mons ([^)]*)\) \(subs ([^)]*)\) \(lost (\([^)]*\))\)\)$")
 
 
 def lab(variant, tok):
@@ -585,7 +647,7 @@ def compare(ctx, case, variant, trace, reply, hit=None):
         if not m:
             raise Infra("C10 driver reply not understood: " + part[:300])
         tok, mst, hit_tok, s_tok, mons_tok, subs_tok, _lost = m.groups()
-        want = ("", ARR_WAIT) if ev == "A" else ("", FAULT) if ev == "F" else lab(variant, tok)
+        want = ("", ARR_WAIT) if ev == "A" else ("", FAULT) if ev == "F" else ("", ENV) if ev[0] in "LO" and ev not in ("O",) and ev[1:2].isdigit() else lab(variant, tok)
         if want != executed:
             ctx.mismatch(f"step {k} ({ev}): executed line differs", case, model=repr(want), impl=repr(executed))
             return False
@@ -636,7 +698,12 @@ def oracle(ctx, case, rig, finished):
         if lost and rig.fired and rig.sched.crashes:
             lost = []           # a cloud error was injected and the scheduler was told (reject_job(None, error)): the workflow fails loudly
         if lost:
-            if rig.fired:
+            untracked = [j for j in lost if j not in recorded]
+            if untracked and not rig.fired:
+                sig, why = f"C10-{v}-submitted-job-not-tracked", (
+                    f"submit() returned normally for job(s) {untracked} but they are neither in the pending map nor in the "
+                    "arrayer: no thread will ever report them")
+            elif rig.fired:
                 sig, why = f"C10-{v}-silently-dropped-on-cloud-error", (
                     "a transient cloud error (throttling) during status processing was swallowed: the job had been taken out "
                     "of the pending map, nothing was reported and no scheduler-level error was raised")
@@ -722,6 +789,16 @@ def witness_scripts():
         out.append(dict(name=v + "-oversized-group-interleaved", variant=v, njobs=4, arrmax=1, signature=None,
                         script=[("S", "n", 1), ("S", "until", {1}), ("S", "n", 1), ("S", "until", {1}), ("A", "n", 1),
                                 ("M", "n", 60), ("S", "run"), ("A", "n", 1), ("M", "n", 150)]))
+    # AWS Batch reunite path: the first listing shows an in-flight Batch job of an earlier execution for a later job; its
+    # state changes (or not) between that listing and the job's submission; the job must be tracked either way
+    for st in "RSFG":
+        out.append(dict(name="batch-reunite-" + st, variant="batch", njobs=3, listed=[1], signature=None,
+                        script=[("O1" + st, "n", 1), ("S", "run"), ("A", "n", 1), ("M", "run")]))
+    out.append(dict(name="batch-reunite-late-F", variant="batch", njobs=3, listed=[2], signature=None,
+                    script=[("S", "n", 1), ("S", "until", {1, 36}), ("M", "n", 12), ("O2F", "n", 1), ("S", "run"),
+                            ("A", "n", 1), ("M", "run")]))
+    out.append(dict(name="batch-reunite-first-and-last", variant="batch", njobs=3, listed=[0, 2], signature=None,
+                    script=[("O2F", "n", 1), ("S", "run"), ("A", "n", 1), ("M", "run")]))
     # one transient cloud error (throttling) inside status processing: the job is reported or the scheduler is told
     for v in VARIANTS:
         warm = [("S", "run")] + ([("A", "n", 1)] if v in ("batch", "k8s", "gcp") else []) + ([("U", "run")] if v == "glue" else [])
@@ -760,6 +837,10 @@ def random_schedule(rig, rng, nsteps):
                 cur = ms[-1]
                 rig.do(cur)
                 continue
+        later = [j for j in rig.listed if j > rig.cur_index]
+        if later and rng.random() < 0.06:
+            rig.do("O%d%s" % (rng.choice(later), rng.choice("RSFG")))
+            continue
         if inject and rng.random() < 0.03:
             rig.do("F")
             inject = False
@@ -770,8 +851,11 @@ def random_schedule(rig, rng, nsteps):
         rig.do(cur)
 
 
-def exec_case(ctx, variant, njobs, script=None, rng=None, nsteps=0, events=None, tags=None, arrmax=0):
-    with Rig(variant, njobs, arrmax) as rig:
+def exec_case(ctx, variant, njobs, script=None, rng=None, nsteps=0, events=None, tags=None, arrmax=0, listed=()):
+    with Rig(variant, njobs, arrmax, listed) as rig:
+        if events is None:
+            for j in rig.listed:
+                rig.do("L%d" % j)
         if events is not None:
             for ev in events:
                 rig.do(ev)
@@ -784,7 +868,7 @@ def exec_case(ctx, variant, njobs, script=None, rng=None, nsteps=0, events=None,
             else:
                 random_schedule(rig, rng, nsteps)
             finished = rig.drain()
-        full = dict(variant=variant, njobs=njobs, arrmax=rig.arrmax, sched=list(rig.events))
+        full = dict(variant=variant, njobs=njobs, arrmax=rig.arrmax, listed=list(rig.listed), sched=list(rig.events))
         ok = oracle(ctx, full, rig, finished)
         req = "run %s i%d (%s) (%s)" % (variant, rig.arrmax, " ".join("i%d" % i for i in range(njobs)), " ".join(rig.model_ev(e) for e in rig.events))
         rec = dict(full=full, ok=ok, trace=rig.trace, switches=rig.switches, hit=rig.hit, request=req, tags=tags or {},
@@ -811,7 +895,7 @@ def run(ctx):
     recs = []
     for w in witness_scripts():
         r = exec_case(ctx, w["variant"], w["njobs"], script=w["script"], tags=dict(kind="witness-" + w["name"]),
-                      arrmax=w.get("arrmax", 0))
+                      arrmax=w.get("arrmax", 0), listed=w.get("listed", ()))
         recs.append(r)
         if w["signature"] is None:
             continue
@@ -827,8 +911,10 @@ def run(ctx):
             break
         v = VARIANTS[i % len(VARIANTS)]
         am = 1 if v in ("batch", "k8s", "gcp") and rng.random() < 0.4 else 0
-        recs.append(exec_case(ctx, v, rng.choice([1, 2, 2, 3, 4]), rng=rng, nsteps=rng.choice([30, 60, 120, 250]),
-                              tags=dict(kind="random", arrmax=am), arrmax=am))
+        nj = rng.choice([1, 2, 2, 3, 4])
+        ls = [j for j in range(nj) if rng.random() < 0.4] if v == "batch" and rng.random() < 0.5 else []
+        recs.append(exec_case(ctx, v, nj, rng=rng, nsteps=rng.choice([30, 60, 120, 250]),
+                              tags=dict(kind="random", arrmax=am, listed=len(ls)), arrmax=am, listed=ls))
     finish_cases(ctx, recs)
 
 
@@ -837,7 +923,8 @@ def replay(ctx, case):
     if not c.get("sched"):
         ctx.note("replay file has no schedule; running the normal check")
         return run(ctx)
-    r = exec_case(ctx, c["variant"], c["njobs"], events=c["sched"], tags=dict(kind="replay"), arrmax=c.get("arrmax", 0))
+    r = exec_case(ctx, c["variant"], c["njobs"], events=c["sched"], tags=dict(kind="replay"), arrmax=c.get("arrmax", 0),
+                  listed=c.get("listed", ()))
     finish_cases(ctx, [r])
     print("replay:", "no job lost on this schedule" if r["ok"] else "property VIOLATED on this schedule (lost %s)" % r["lost"],
           "| model agrees" if r["same"] else "| model DISAGREES")
